@@ -89,7 +89,8 @@ class CardSet(Sym):
         s.n = n
 
     def axioms(s):
-        return z3.And(s.n >= 0, s.n <= 52, (s.n == 0) == z3.Not(z3.Or(s.bits)))
+        return z3.And(s.n >= 0, s.n <= 52, (s.n == 0) == z3.Not(z3.Or(s.bits)),
+                      z3.Implies(s.n <= 1, z3.AtMost(*s.bits, 1)), z3.Implies(s.n >= 2, z3.AtLeast(*s.bits, 2)))
 
     def copy(s):
         return CardSet(list(s.bits), s.n)
@@ -357,6 +358,8 @@ class Engine:
         self.pc = []
         self.timeout_ms = 120000
         self.unknowns = []
+        self.summarize = set()   # pure repository functions explored once per call site and returned as one ite term
+        self.in_summary = 0
 
     # ---- module-level mutable state of the repository (caches etc.) is reset at the start of every path
     def snapshot_modules(self):
@@ -710,6 +713,9 @@ class Engine:
             return stub(self, list(args), kwargs)
         if fn.__name__ in self.skip_calls:
             return None
+        if fn in self.summarize and not self.in_summary and \
+                any(is_sym(a) for a in list(args) + list(kwargs.values())):
+            return self.call_summarized(fn, args, kwargs)
         node = func_ast(fn)
         sig = inspect.signature(fn)
         try:
@@ -729,6 +735,57 @@ class Engine:
         except ReturnEx as r:
             return r.v
         return None
+
+    def call_summarized(self, fn, args, kwargs):
+        """pure-call summary: every feasible path of fn on these arguments is explored here (nested depth-first
+        search by re-execution; fn must not mutate anything) and the result is ONE value: an ite over the path
+        conditions.  Raising paths become a fork of the caller on their (disjoined) conditions."""
+        saved = (self.decisions, self.pos, self.pending, self.guards)
+        base = len(self.pc)
+        results = []
+        stack = [[]]
+        self.in_summary += 1
+        self.guards = []
+        try:
+            while stack:
+                prefix = stack.pop()
+                self.decisions, self.pos, self.pending = list(prefix), 0, []
+                self.solver.push()
+                try:
+                    try:
+                        v, kind = self.call_function(fn, args, kwargs), 'ret'
+                    except RaiseEx as e:
+                        v, kind = e.exc, 'raise'
+                    seg = self.pc[base:]
+                    results.append((z3.And(seg) if seg else z3.BoolVal(True), kind, v))
+                except Infeasible:
+                    pass
+                finally:
+                    self.solver.pop()
+                    del self.pc[base:]
+                stack.extend(self.pending)
+                if len(results) > 5000:
+                    raise Unsupported('summary of ' + fn.__qualname__ + ' has too many paths')
+        finally:
+            self.in_summary -= 1
+            self.decisions, self.pos, self.pending, self.guards = saved
+        self.stats['summaries'] = self.stats.get('summaries', 0) + 1
+        self.stats['summary_paths'] = self.stats.get('summary_paths', 0) + len(results)
+        for cond, kind, v in results:
+            if kind == 'raise' and self.decide(cond):
+                raise RaiseEx(v)
+        rets = [(c, v) for c, k, v in results if k == 'ret']
+        if not rets:
+            if self.guards:
+                raise GuardDead()
+            raise Infeasible()
+        out = rets[-1][1]
+        try:
+            for c, v in reversed(rets[:-1]):
+                out = self.ite(c, v, out)
+        except MergeFail:
+            raise Unsupported('summary of ' + fn.__qualname__ + ': results cannot be merged')
+        return out
 
     def call_lambda(self, fn, args, kwargs):
         src = inspect.getsource(fn)
